@@ -147,6 +147,8 @@ type Frame struct {
 	lastLockSnap *State
 	callSnaps    map[string]*State // state before call sites carrying asserts (atcall)
 	callArgs     map[string]map[string]sval
+	loopIdxTerms []string // loop counters, offered as witnesses for existentials to be proved
+	ownObjs      []string // objects allocated by this symbolic execution (initonly.go)
 	immCells     []immCell         // assigned-once local variable cells (top-level frame)
 	// calleeBindings: captured-variable cells of the closure whose contract is being applied
 	calleeBindings []string
@@ -779,6 +781,9 @@ func (f *Frame) zeroInitElems(st *State, base string, elem types.Type) {
 // newObj allocates a fresh object id.
 func (f *Frame) newObj(st *State, hint string) string {
 	c := f.ctx.Fresh("obj_"+hint, "Int")
+	if f.top != nil {
+		f.top.ownObjs = append(f.top.ownObjs, c)
+	}
 	f.ctx.Fact(fmt.Sprintf("(and (>= %s %s) (>= %s 1))", c, st.alloc, c))
 	if hint == "map" || hint == "chan" {
 		f.ctx.Fact(fmt.Sprintf("(ismapobj %s)", c))
@@ -1328,6 +1333,12 @@ func (f *Frame) enterLoop(l *loop, entryReach string, entrySt *State, edges []in
 		if phi.Comment == "rangeindex" {
 			// go/ssa's range-over-slice index starts at -1 and is only incremented.
 			f.ctx.Fact(fmt.Sprintf("(>= %s (- 1))", f.vals[phi]))
+			if f.top != nil && len(f.top.loopIdxTerms) < 8 {
+				// candidate witnesses for existentials proved after the loop (specexpr.go)
+				f.top.loopIdxTerms = append(f.top.loopIdxTerms, fmt.Sprintf("(+ %s 1)", f.vals[phi]))
+			}
+		} else if b, isBasic := phi.Type().Underlying().(*types.Basic); isBasic && b.Info()&types.IsInteger != 0 && f.top != nil && len(f.top.loopIdxTerms) < 8 {
+			f.top.loopIdxTerms = append(f.top.loopIdxTerms, f.vals[phi])
 		}
 	}
 	// automatic frame invariant relative to function entry: objects that
